@@ -223,6 +223,27 @@ def root_vector_oracle(chk, rng):
         got = f"{type(e).__name__}: {e}"
     finally:
         root_hooks[:] = saved
+    # ... non-finite elements are elements, too: a NaN or an infinite entry agrees with nothing, so it must stay in the vector that is compared
+    class K2(HookHost):
+        a = Hook[Any](); b = Hook[Any](); c = Hook[Any](); e = Hook[Any]()
+    vals2 = dict(a=float('nan'), b=np.array([1.0, float('nan'), float('inf')]), c=[float('-inf'), 2.0], e=np.array([[float('nan'), 2.0], [3.0, float('-inf')]]))
+    expect2 = ['nan', '1.0', 'nan', 'inf', '-inf', '2.0', 'nan', '2.0', '3.0', '-inf']
+    for name, v in vals2.items():
+        getattr(K2, name)(lambda self, v=v: v)
+    root_hooks[:] = [getattr(K2, name) for name in vals2]
+    try:
+        import warnings as _w
+        with _w.catch_warnings():
+            _w.simplefilter("ignore")
+            got2 = [repr(float(x)) for x in K2().evaluate_and_set_hooks()]
+    except Exception as e:      # noqa
+        got2 = f"{type(e).__name__}: {e}"
+    finally:
+        root_hooks[:] = saved
+    chk.cov['evaluations'] += 1
+    if got2 != expect2 and got == expect:
+        return chk.fail('result-vector', f"root hooks with results {vals2}: the vector of persisted values compared between iterations is {got2}, every numeric element "
+                        f"(non-finite ones included: they agree with nothing) gives {expect2}", {'results': {k: repr(v) for k, v in vals2.items()}})
     chk.cov['evaluations'] += 1
     if got != expect:
         chk.fail('result-vector', f"root hooks with results {vals}: the vector of persisted values compared between iterations is {got}, every numeric element "
